@@ -143,3 +143,209 @@ pub fn connect_proxy_then_tls(cert: &'static str) -> Peer {
 pub fn https_proxy(cert: &'static str) -> Peer {
     tls_server(cert)
 }
+
+// ---------------------------------------------------------------------------------------------
+// per-address behaviours for the connection race (C17)
+
+use std::os::fd::{AsRawFd, FromRawFd, OwnedFd};
+use std::sync::atomic::{AtomicBool, AtomicUsize, Ordering};
+
+pub fn loopback(v6: bool, last: u8, port: u16) -> SocketAddr {
+    if v6 {
+        SocketAddr::from((std::net::Ipv6Addr::LOCALHOST, port))
+    } else {
+        SocketAddr::from(([127, 0, 0, last.max(1)], port))
+    }
+}
+
+/// An address that refuses connections: a socket that is bound (so the port stays reserved) but never listens.
+pub struct Refuser {
+    pub addr: SocketAddr,
+    _fd: OwnedFd,
+}
+
+pub fn refuser(v6: bool, last: u8) -> std::io::Result<Refuser> {
+    unsafe {
+        let fd = libc::socket(if v6 { libc::AF_INET6 } else { libc::AF_INET }, libc::SOCK_STREAM | libc::SOCK_CLOEXEC, 0);
+        if fd < 0 {
+            return Err(std::io::Error::last_os_error());
+        }
+        let owned = OwnedFd::from_raw_fd(fd);
+        let rc = if v6 {
+            let mut sa: libc::sockaddr_in6 = std::mem::zeroed();
+            sa.sin6_family = libc::AF_INET6 as libc::sa_family_t;
+            sa.sin6_addr.s6_addr = std::net::Ipv6Addr::LOCALHOST.octets();
+            libc::bind(fd, &sa as *const _ as *const libc::sockaddr, std::mem::size_of::<libc::sockaddr_in6>() as libc::socklen_t)
+        } else {
+            let mut sa: libc::sockaddr_in = std::mem::zeroed();
+            sa.sin_family = libc::AF_INET as libc::sa_family_t;
+            sa.sin_addr.s_addr = u32::from_ne_bytes([127, 0, 0, last.max(1)]);
+            libc::bind(fd, &sa as *const _ as *const libc::sockaddr, std::mem::size_of::<libc::sockaddr_in>() as libc::socklen_t)
+        };
+        if rc != 0 {
+            return Err(std::io::Error::last_os_error());
+        }
+        let port = if v6 {
+            let mut sa: libc::sockaddr_in6 = std::mem::zeroed();
+            let mut len = std::mem::size_of::<libc::sockaddr_in6>() as libc::socklen_t;
+            libc::getsockname(fd, &mut sa as *mut _ as *mut libc::sockaddr, &mut len);
+            u16::from_be(sa.sin6_port)
+        } else {
+            let mut sa: libc::sockaddr_in = std::mem::zeroed();
+            let mut len = std::mem::size_of::<libc::sockaddr_in>() as libc::socklen_t;
+            libc::getsockname(fd, &mut sa as *mut _ as *mut libc::sockaddr, &mut len);
+            u16::from_be(sa.sin_port)
+        };
+        Ok(Refuser { addr: loopback(v6, last, port), _fd: owned })
+    }
+}
+
+/// An address that never answers: a listener with backlog 0 whose only queue slot is taken by a parked connection.
+pub struct BlackHole {
+    pub addr: SocketAddr,
+    _listener: TcpListener,
+    _parked: Vec<TcpStream>,
+}
+
+pub fn black_hole(v6: bool, last: u8) -> std::io::Result<BlackHole> {
+    let l = TcpListener::bind(loopback(v6, last, 0))?;
+    let addr = l.local_addr()?;
+    if unsafe { libc::listen(l.as_raw_fd(), 0) } != 0 {
+        return Err(std::io::Error::last_os_error());
+    }
+    // fill the accept queue (backlog 0 admits one established connection); a second one already hangs
+    let parked = vec![TcpStream::connect_timeout(&addr, Duration::from_millis(500))?];
+    Ok(BlackHole { addr, _listener: l, _parked: parked })
+}
+
+/// An address that accepts and answers every connection with a body naming itself.
+pub struct Acceptor {
+    pub addr: SocketAddr,
+    pub connections: Arc<AtomicUsize>,
+    stop: Arc<AtomicBool>,
+    handle: Option<JoinHandle<()>>,
+}
+
+pub fn acceptor(v6: bool, last: u8, name: String) -> std::io::Result<Acceptor> {
+    let l = TcpListener::bind(loopback(v6, last, 0))?;
+    let addr = l.local_addr()?;
+    l.set_nonblocking(true)?;
+    let stop = Arc::new(AtomicBool::new(false));
+    let connections = Arc::new(AtomicUsize::new(0));
+    let (s2, c2) = (stop.clone(), connections.clone());
+    let handle = std::thread::spawn(move || {
+        let mut workers = vec![];
+        while !s2.load(Ordering::Relaxed) {
+            match l.accept() {
+                Ok((mut sock, _)) => {
+                    c2.fetch_add(1, Ordering::Relaxed);
+                    let name = name.clone();
+                    workers.push(std::thread::spawn(move || {
+                        let _ = sock.set_nonblocking(false);
+                        let _ = sock.set_read_timeout(Some(Duration::from_millis(1500)));
+                        if let Ok(h) = read_head(&mut sock) {
+                            if h.ends_with("\r\n\r\n") {
+                                let body = format!("addr={name}");
+                                let _ = sock.write_all(format!("HTTP/1.1 200 OK\r\nContent-Length: {}\r\n\r\n{}", body.len(), body).as_bytes());
+                            }
+                        }
+                    }));
+                }
+                Err(_) => std::thread::sleep(Duration::from_millis(2)),
+            }
+        }
+        for w in workers {
+            let _ = w.join();
+        }
+    });
+    Ok(Acceptor { addr, connections, stop, handle: Some(handle) })
+}
+
+impl Drop for Acceptor {
+    fn drop(&mut self) {
+        self.stop.store(true, Ordering::Relaxed);
+        if let Some(h) = self.handle.take() {
+            let _ = h.join();
+        }
+    }
+}
+
+/// An address that does not answer at first and accepts later: a black hole whose listener starts accepting after `delay`.
+/// A connect attempt started before that succeeds when the kernel retransmits its SYN (about 1 s after the first one).
+pub struct LateAcceptor {
+    pub addr: SocketAddr,
+    _parked: Vec<TcpStream>,
+    stop: Arc<AtomicBool>,
+    armed: Arc<AtomicBool>,
+    handle: Option<JoinHandle<()>>,
+}
+
+impl LateAcceptor {
+    pub fn arm(&self) {
+        self.armed.store(true, Ordering::Relaxed);
+    }
+}
+
+pub fn late_acceptor(v6: bool, last: u8, name: String, delay: Duration) -> std::io::Result<LateAcceptor> {
+    let l = TcpListener::bind(loopback(v6, last, 0))?;
+    let addr = l.local_addr()?;
+    if unsafe { libc::listen(l.as_raw_fd(), 0) } != 0 {
+        return Err(std::io::Error::last_os_error());
+    }
+    let parked = vec![TcpStream::connect_timeout(&addr, Duration::from_millis(500))?];
+    let stop = Arc::new(AtomicBool::new(false));
+    let armed = Arc::new(AtomicBool::new(false));
+    let (s2, a2) = (stop.clone(), armed.clone());
+    let handle = std::thread::spawn(move || {
+        // the delay counts from the moment the case arms the peer (right before the request is sent)
+        while !a2.load(Ordering::Relaxed) {
+            if s2.load(Ordering::Relaxed) {
+                return;
+            }
+            std::thread::sleep(Duration::from_millis(1));
+        }
+        let t0 = std::time::Instant::now();
+        while t0.elapsed() < delay {
+            if s2.load(Ordering::Relaxed) {
+                return;
+            }
+            std::thread::sleep(Duration::from_millis(5));
+        }
+        unsafe {
+            libc::listen(l.as_raw_fd(), 16);
+        }
+        let _ = l.set_nonblocking(true);
+        let mut workers = vec![];
+        while !s2.load(Ordering::Relaxed) {
+            match l.accept() {
+                Ok((mut sock, _)) => {
+                    let name = name.clone();
+                    workers.push(std::thread::spawn(move || {
+                        let _ = sock.set_nonblocking(false);
+                        let _ = sock.set_read_timeout(Some(Duration::from_millis(300)));
+                        if let Ok(h) = read_head(&mut sock) {
+                            if h.ends_with("\r\n\r\n") {
+                                let body = format!("addr={name}");
+                                let _ = sock.write_all(format!("HTTP/1.1 200 OK\r\nContent-Length: {}\r\n\r\n{}", body.len(), body).as_bytes());
+                            }
+                        }
+                    }));
+                }
+                Err(_) => std::thread::sleep(Duration::from_millis(2)),
+            }
+        }
+        for w in workers {
+            let _ = w.join();
+        }
+    });
+    Ok(LateAcceptor { addr, _parked: parked, stop, armed, handle: Some(handle) })
+}
+
+impl Drop for LateAcceptor {
+    fn drop(&mut self) {
+        self.stop.store(true, Ordering::Relaxed);
+        if let Some(h) = self.handle.take() {
+            let _ = h.join();
+        }
+    }
+}
